@@ -8,6 +8,7 @@
 //! the process when one case runs longer than the limit. The orchestrator (`/verif/check`) restarts
 //! `eval` after the offending line and records `abort(<signal>)` / `timeout` for it.
 
+mod alloc;
 mod canon;
 mod mem;
 mod rng;
@@ -16,6 +17,9 @@ mod streams;
 use std::io::{BufRead, Write};
 use std::sync::atomic::{AtomicU64, Ordering};
 use std::sync::Arc;
+
+#[global_allocator]
+static GLOBAL: alloc::Counting = alloc::Counting;
 
 fn now_ms() -> u64 {
     use std::time::{SystemTime, UNIX_EPOCH};
